@@ -83,9 +83,26 @@ PChainWraps(tag, e) ==
      THEN Tag(to("p"), PChainU({e}) \cup Binary({e}, PChainLeaves) \cup Binary(PChainLeaves, {e})) \cup Tag(to("m"), PChainToSeq({e}))
      ELSE (IF k = "s" /\ n = 1 THEN {} ELSE Tag(to(k), ChainSteps(e))) \cup Tag(to("p"), PChainFromSeq({e}))
 
+(* Shape "jx" (see Iter): pair.Join, pair.ToSeq and pair.FromSeq with an expression-valued function.  Outer items are
+   (11, 1) and (12, 2) in every pattern of length <= 3 (selector klt12: the first kind maps to the inner tree, the other
+   to nil or one element); inner trees run over the non-monotone key-value list of JxNM: pair trees of depth <= 2
+   for Join, of depth <= 1 for FromSeq; seq trees of depth <= 1 for ToSeq (deeper seq inners are C14's). *)
+PJxNM == [op |-> "fromseq", j |-> "kv", e |-> ESlice(JxNM)]
+PJxOuter == {[op |-> "fromseq", j |-> "kv", e |-> o] : o \in JxOuter}
+PSteps(e) == PChainU({e}) \cup Binary({e}, PChainLeaves) \cup Binary(PChainLeaves, {e})
+PJxBase == Tag("pjx1", {PJxNM} \cup PSteps(PJxNM)) \cup Tag("sjx1", JxInner1)
+PJxWraps(tag, e) ==
+  LET PB == {ENil, EPair(12, 2)}
+      SB == {ENil, [op |-> "from", x |-> 2]}
+  IN CASE tag = "pjx1" -> Tag("pjxa", {e}) \cup Tag("pjxb", PSteps(e))
+       [] tag = "pjxa" -> Tag("pair", JxMake("joinx", "klt12", PJxOuter, e, PB) \cup JxMake("fromseqx", "lt2", JxOuter, e, PB))
+       [] tag = "pjxb" -> Tag("pair", JxMake("joinx", "klt12", PJxOuter, e, PB))
+       [] tag = "sjx1" -> Tag("seq", JxMake("toseqx", "klt12", PJxOuter, e, SB))
+
 PairBase(shape, w) ==
   LET S == SliceSet(w) IN
   IF shape \in {"c3", "c4"} THEN PChainBase(shape)
+  ELSE IF shape = "jx" THEN PJxBase
   ELSE IF shape = "d1" THEN Tag("pick-pair", Q0(S)) \cup Tag("pick-seq", S0(S))
   ELSE Tag("pick-pair", Q1(S)) \cup Tag("pick-mix", T1(S)) \cup Tag("pick-seq", S1(S) \ T1(S))
 PairWraps(tag, e, shape, w) ==
@@ -95,6 +112,7 @@ PairWraps(tag, e, shape, w) ==
       pt == IF shape = "d3" THEN "pick2-pair" ELSE "pair"
       st == IF shape = "d3" THEN "pick2-mix" ELSE "seq"
   IN CASE tag \in ChainTags -> PChainWraps(tag, e)
+       [] tag \in {"pjx1", "pjxa", "pjxb", "sjx1"} -> PJxWraps(tag, e)
        [] tag = "pick-pair" -> Tag(pt, {e} \cup PairU({e}) \cup Binary({e}, QP)) \cup Tag(st, ToSeqU({e}))
        [] tag = "pick-mix" -> Tag(st, {e} \cup SeqUr({e}) \cup Binary({e}, SP) \cup Binary(SP, {e})) \cup Tag(pt, FromSeqU({e}))
        [] tag = "pick-seq" -> Tag(pt, FromSeqU({e}))
